@@ -17,6 +17,7 @@ inductive Act where
   | ensure (t : Bytes)          -- mount t unless the cache says it is mounted (mountOne)
   | planUmount (pre : Bytes)    -- list the cached mounts at/below pre, deepest first (unmountLayer)
   | umount (t : Bytes)
+  | failIfCached (t : Bytes)    -- refuse (errorIfBusy: overlain) when the cache shows a mount at t
   deriving Repr, DecidableEq, BEq
 
 structure Proc where
@@ -48,6 +49,9 @@ def turn : Nat → Proc → List Bytes → Proc × List Bytes
       let ts := (sortBy bytesLt (p.cache.filter (atOrBelow pre))).reverse
       if ts.isEmpty then ({ p with pending := [], failed := true }, k)
       else turn fuel { p with pending := ts.map Act.umount ++ rest } k
+    | .failIfCached t :: rest =>
+      if p.cache.contains t then ({ p with pending := [], failed := true }, k)
+      else turn fuel { p with pending := rest } k
     | .umount t :: rest =>
       if hasChildMount t k then ({ p with pending := [], failed := true }, k)
       else match removeLast t k with
@@ -99,6 +103,20 @@ def serial10 (k : List Bytes) (a0 a1 : List Act) : St :=
   drain n false (drain n true s)
 
 def mountActs (targets : List Bytes) : List Act := [.probe] ++ targets.map .ensure ++ [.probe]
+
+/-- mount of a chain: per layer (root first) its mounts — overlay first for derived layers —
+    then the re-reading of the table -/
+def mountChainActs (layers : List (List Bytes)) : List Act :=
+  [.probe] ++ layers.flatMap fun ts => ts.map .ensure ++ [.probe]
+
+/-- umount of a layer whose children's build roots are `kids` -/
+def umountLayerActs (pre : Bytes) (kids : List Bytes) : List Act :=
+  [.probe] ++ kids.map .failIfCached ++ [.planUmount pre, .probe]
+
+/-- run one process alone to completion -/
+def solo (k : List Bytes) (a : List Act) : St :=
+  let s : St := { kernel := k, p0 := { pending := a }, p1 := {} }
+  drain (4 * fuelOf s + 64) false s
 def umountActs (pre : Bytes) : List Act := [.probe, .planUmount pre, .probe]
 
 /-- multiset view of the kernel table -/
